@@ -91,5 +91,20 @@ elif name == "replaceall_accepts_nonglobal":
     sub(M, """                if "g" not in pattern._flags:
                     raise JSTypeError("replaceAll called with a non-global RegExp")""", """                if False:
                     raise JSTypeError("replaceAll called with a non-global RegExp")""")
+# ---- neutral (behaviour-preserving) edits: the check must stay green
+elif name == "NEUTRAL_tolength_if_chain":
+    sub(V, """        self._internal.lastIndex = min(max(index, 0), 2**53 - 1)""", """        if index < 0:
+            index = 0
+        elif index > 2**53 - 1:
+            index = 2**53 - 1
+        self._internal.lastIndex = index""")
+elif name == "NEUTRAL_store_through_setter":
+    sub(V, """            self.set("lastIndex", self._internal.lastIndex)""", """            self.lastIndex = self._internal.lastIndex""")
+elif name == "NEUTRAL_split_reuses_size_check":
+    sub(M, """                    if size > 0:
+                        parts.append(s[p:])
+                    elif regex_internal._create_vm().match(s, 0) is None:""", """                    if s != "":
+                        parts.append(s[p:size])
+                    elif regex_internal._create_vm().match("", 0) is None:""")
 else:
     raise SystemExit("unknown mutant " + name)
